@@ -578,3 +578,89 @@ def c14_handle_lease(inputs, doc):
         if bad:
             return bad
     return None
+
+
+# --------------------------------------------------------------------------- C05
+
+def _wire_order(frames, fragment_size=64):
+    """Drive the REAL sender step (_get_next_frame_to_send) over a queue of real frames; returns the wire log."""
+    import asyncio
+    from rsocket.rsocket_server import RSocketServer
+    from rsocket.queue_peekable import QueuePeekable
+
+    class T:
+        def requires_length_header(self):
+            return True
+
+    async def run():
+        s = RSocketServer.__new__(RSocketServer)
+        s._send_queue = QueuePeekable()
+        for f in frames:
+            s._send_queue.put_nowait(f)
+        wire = []
+        for _ in range(200):
+            if s._send_queue.empty():
+                break
+            async with s._get_next_frame_to_send(T()) as fr:
+                wire.append(fr)
+        return wire
+    return asyncio.run(run())
+
+
+def c05_emit(inputs, doc):
+    import itertools
+    from rsocket.frame_builders import to_payload_frame, to_cancel_frame, to_request_n_frame
+    from rsocket.frame import ErrorFrame
+    from rsocket.payload import Payload
+
+    def mk(kind, sid, tag):
+        if kind == 'big':
+            f = to_payload_frame(sid, Payload(bytes([tag]) * 150), fragment_size_bytes=64)
+        elif kind == 'small':
+            f = to_payload_frame(sid, Payload(bytes([tag]) * 5), fragment_size_bytes=64)
+        elif kind == 'cancel':
+            f = to_cancel_frame(sid)
+        else:
+            f = ErrorFrame()
+            f.stream_id = sid
+            f.error_code = 0x201
+            f.data = b'e'
+        f._tag = (kind, sid, tag)
+        return f
+    kinds = ['big', 'small', 'cancel', 'error']
+    for n in (2, 3):
+        for combo in itertools.product([(k, s) for k in kinds for s in (2, 4)], repeat=n):
+            frames = []
+            for i, (k, s) in enumerate(combo):
+                f = mk(k, s, i + 1)
+                try:
+                    frames.append(f)
+                except Exception:
+                    pass
+            wire = _wire_order(frames)
+            # per stream: sources must appear in queue order and the fragments of one source contiguously
+            for sid in (2, 4):
+                srcs = [i for i, (k, s) in enumerate(combo) if s == sid]
+                seen = []
+                for fr in wire:
+                    if fr.stream_id != sid:
+                        continue
+                    # identify source by first byte of data for payloads, else by type
+                    ident = None
+                    for i in srcs:
+                        k = combo[i][0]
+                        if k in ('big', 'small') and type(fr).__name__ == 'PayloadFrame' and (fr.data or b'')[:1] == bytes([i + 1]):
+                            ident = i
+                        if k == 'cancel' and type(fr).__name__ == 'CancelFrame' and i not in seen:
+                            ident = i if ident is None else ident
+                        if k == 'error' and type(fr).__name__ == 'ErrorFrame' and i not in seen:
+                            ident = i if ident is None else ident
+                    if ident is None:
+                        continue
+                    if not seen or seen[-1] != ident:
+                        seen.append(ident)
+                if seen != [i for i in srcs if i in seen] or len(seen) != len(set(seen)):
+                    return dict(queue=[('%s(stream %d)' % c) for c in combo],
+                                wire=['%s(stream %d%s)' % (type(f).__name__, f.stream_id, ', follows' if getattr(f, 'flags_follows', False) else '')
+                                      for f in wire], stream=sid, source_order_on_wire=seen)
+    return None
